@@ -4,7 +4,7 @@ from geomgen import *
 import math
 
 ID = "C19"
-THEOREM_MODULES = ["SimVerif.Props.C19", "SimVerif.Tie.Radius", "SimVerif.Tie.Box"]
+THEOREM_MODULES = ["SimVerif.Props.C19", "SimVerif.Tie.Radius", "SimVerif.Tie.Box", "SimVerif.Tie.Cache"]
 THEOREM_MODULE = "SimVerif.Props.C19"
 NONTRIVIAL_FLAGS = {"rotate-after-gen", "rotated", "large", "small", "wide", "far", "close", "negative-diff", "negative", "multi-turn"}
 RULE = ("`box conv` (ltwh -> universal -> ltwh), `box poly` (vertices, area, radius), `box eq`/`box beq` on pairs differing in exactly one coordinate by +-delta for delta "
